@@ -45,7 +45,8 @@ Definition upper (b : byte) : byte := if (97 <=? b)%N && (b <=? 122)%N then (b -
 (* `lower` is C02's *)
 
 (* caseName for names whose bytes are below 0x80 or have no case (strings.ToLower / ToUpper are the
-   identity on those); names with cased letters above 0x7f are outside the model *)
+   identity on those); names with cased letters above 0x7f are outside the model.  :capitalize leaves the
+   empty name alone (repo_fixes C03-2; it used to index the first rune of the empty name) *)
 Definition case_name (c : pcase) (name : list byte) : list byte :=
   match c with
   | CUp => map upper name
@@ -308,20 +309,6 @@ Definition pretty (c : pcfg) (x : obj) : list byte :=
 
 (* Printer.Append at level 0 *)
 Definition print (c : pcfg) (x : obj) : list byte := if p_pretty c then pretty c x else flat c x.
-
-(* where the Go code panics instead of printing: createTree calls caseName on the empty name of a
-   symbol inside a list, and :capitalize indexes its first rune *)
-Fixpoint has_empty_sym (x : obj) : bool :=
-  let fix any (l : list obj) : bool := match l with [] => false | e :: l' => has_empty_sym e || any l' end in
-  match x with
-  | OSym [] => true
-  | OList xs | OVec xs | OArr _ xs => any xs
-  | ODot xs tl => any xs || has_empty_sym tl
-  | _ => false
-  end.
-Definition print_faults (c : pcfg) (x : obj) : bool :=
-  p_pretty c && match p_case c with CCap => true | _ => false end && negb (is_atom x) && has_empty_sym x &&
-  match x with OVec _ | OArr _ _ => p_array c | _ => true end.
 
 (* ------------------------------------------------------------------------------------------ *)
 (* the reader: token resolution on top of C02's byte machine                                     *)
